@@ -10,6 +10,7 @@ Not decided: equality of everything read; prefixes that contain the marker.
 import facts as F
 from cfg import CFG
 from flow import Flow, call_sites, arg_local, last_seg
+from inline import inlined
 from units import Units, range_bounds
 
 
@@ -115,6 +116,14 @@ def rule_units(ctx, f):
                             cfl, ccfg = Flow(cb), CFG(cb)
                             for rbi, rt in call_sites(cb, lambda nm, t2: t2.get("callee") == "backend::Backend::read"):
                                 reads.append((cb, cfl, ccfg, rbi, rt))
+            if not reads and bl is not None:
+                # ... or by a private helper of this crate (`self.body_slice()`): the reads of that helper
+                for a in fl.origins(bl, at=bi, cfg=cfg):
+                    hb = f.bodies.get(a[3].get("resolved") or "") if a[0] == "call" and a[3].get("resolved_local") else None
+                    if hb is not None and not hb.get("pub") and hb is not b:
+                        hfl, hcfg = Flow(hb), CFG(hb)
+                        for rbi, rt in call_sites(hb, lambda nm, t2: t2.get("callee") == "backend::Backend::read"):
+                            reads.append((hb, hfl, hcfg, rbi, rt))
             if not reads:
                 ctx.bad("C17-UNITS", key + ".buffer", "the lexer's buffer does not come from Backend::read", t["span"])
                 continue
@@ -151,8 +160,11 @@ def rule_seen_units(ctx, f, rid="C17-UNITS"):
     n = 0
     for b in f.bodies.values():
         reads = call_sites(b, lambda nm, t: last_seg(nm) == "read_xref_and_trailer_at")
+        if len(reads) < 2:
+            continue
+        b = inlined(f, b)
         conts = call_sites(b, lambda nm, t: last_seg(nm) == "contains")
-        if len(reads) < 2 or not conts:
+        if not conts:
             continue
         fl = Flow(b)
         cfg = CFG(b)
